@@ -139,6 +139,16 @@ def make_uf_loss(name):
     kl = [] if key is None else [jax.random.key_data(key) if jax.dtypes.issubdtype(key.dtype, jax.dtypes.prng_key) else key]
     (out,) = loss_p.bind(*pl, *el, *kl, out_avals=(((), np.dtype(np.float32)),), tag=tag, nparams=len(pl))
     return out
+
+  def dloss(params, example, key=None, tag=''):
+    """The gradient UF exactly as the JVP rule binds it (for references)."""
+    pl, tree = jax.tree_util.tree_flatten(params)
+    el = jax.tree_util.tree_leaves(example)
+    kl = [] if key is None else [jax.random.key_data(key) if jax.dtypes.issubdtype(key.dtype, jax.dtypes.prng_key) else key]
+    pavals = tuple((tuple(x.shape), np.dtype(x.dtype)) for x in pl)
+    gs = dloss_p.bind(*pl, *el, *kl, out_avals=pavals, tag=tag)
+    return jax.tree_util.tree_unflatten(tree, gs)
+  loss.grad = dloss
   return loss, loss_p, dloss_p
 
 
